@@ -454,35 +454,42 @@ func c16R3(c *Ctx) {
 		}
 		c.check(cutFirst && nCut >= 1, "recvLine/strip-after-cut", c.ipos(ci), "the status strings are stripped from the line already cut at its marker", "the status-line stripper runs before the line is cut at its marker: a half status string in front of the marker discards the line")
 	}
-	// and on every junk-tolerant path, not only on some: from the junk edge no successful exit is reachable without the stripper
+	// and on every junk-tolerant path, not only on some: from the line read itself no successful exit is reachable
+	// without the stripper, except over an edge on which the junk flag was found false
 	nJ := 0
-	for _, rl := range callsIn(f, idIs("(*trzsz.trzszBuffer).readLine")) {
-		for _, b := range f.Blocks {
-			i := blockIf(b)
-			if i == nil || !domI(rl.(ssa.Instruction), i) {
-				continue
-			}
-			nf := normFact(fact{V: i.Cond, Pol: true})
-			isJ := false
-			for _, l := range origins(nf.V, originOpts{}) {
-				if isVar("mayHasJunk")(l.V) {
-					isJ = true
-				}
-			}
-			if _, isCmp := nf.V.(*ssa.BinOp); isCmp || !isJ {
-				continue
-			}
-			nJ++
-			k := 0
-			if !nf.Pol {
-				k = 1
-			}
-			hit, path := reachFromE(b.Succs[k], 0, isNilErrReturn, func(in ssa.Instruction) bool {
-				ci, isCall := in.(ssa.CallInstruction)
-				return isCall && calleeID(ci.Common()) == tT+"stripTmuxStatusLine"
-			}, nil)
-			c.check(hit == nil, "recvLine/junk=>strip", c.ipos(i), "every line accepted in junk-tolerant mode went through the status-line stripper", "a line can be accepted in junk-tolerant mode without the tmux status-line strings being stripped from it", c.pathStr(path)...)
+	junkIf := func(b *ssa.BasicBlock) (*ssa.If, int) {
+		i := blockIf(b)
+		if i == nil {
+			return nil, 0
 		}
+		nf := normFact(fact{V: i.Cond, Pol: true})
+		if _, isCmp := nf.V.(*ssa.BinOp); isCmp {
+			return nil, 0
+		}
+		for _, l := range origins(nf.V, originOpts{}) {
+			if isVar("mayHasJunk")(l.V) {
+				if nf.Pol {
+					return i, 1 // false edge is Succs[1]
+				}
+				return i, 0
+			}
+		}
+		return nil, 0
+	}
+	for _, b := range f.Blocks {
+		if i, _ := junkIf(b); i != nil {
+			nJ++
+		}
+	}
+	for _, rl := range callsIn(f, idIs("(*trzsz.trzszBuffer).readLine")) {
+		hit, path := reachFromE(rl.Block(), instrIndex(rl.(ssa.Instruction))+1, isNilErrReturn, func(in ssa.Instruction) bool {
+			ci, isCall := in.(ssa.CallInstruction)
+			return isCall && calleeID(ci.Common()) == tT+"stripTmuxStatusLine"
+		}, func(from, to *ssa.BasicBlock) bool {
+			i, k := junkIf(from)
+			return i != nil && to == from.Succs[k] && from.Succs[0] != from.Succs[1]
+		})
+		c.check(hit == nil, "recvLine/junk=>strip", c.ipos(rl), "every line accepted in junk-tolerant mode went through the status-line stripper", "a line can be accepted in junk-tolerant mode without the tmux status-line strings being stripped from it", c.pathStr(path)...)
 	}
 	if nJ == 0 {
 		c.undecided("recvLine/junk=>strip", "no junk-mode branch after the line read found")
